@@ -167,13 +167,22 @@ Definition monitor (m : mstate) (h : hop) : nat :=
           && match h_hooked h with [] => true | _ => false end then 8
   else 0.
 
+(* 9: an operation issued after Close had returned (the close was in an EARLIER group of operations) came back with an
+   item / was accepted: once the queue is closed every pop and push reports so, whatever is still queued *)
+Definition after_close (m : mstate) (h : hop) : bool :=
+  m_closed m
+  && existsb (fun e => existsb (fun x => match x with
+                                         | XPop i | XPopH i | XPush i _ _ _ => Nat.eqb i (fst e)
+                                         | _ => false end) (h_ext h)
+                       && match snd e with RItem _ | ROk => true | _ => false end) (h_res h).
+
 Fixpoint mon_only (m : mstate) (l : list hop) (idx : nat) : option (nat * nat) :=
   match l with
   | [] => None
   | h :: l' =>
       let m1 := fold_left apply_ext (h_ext h) m in
       let m2 := fold_left apply_res (h_res h) m1 in
-      let c := monitor m2 h in
+      let c := if after_close m h then 9 else monitor m2 h in
       if negb (Nat.eqb c 0) then Some (idx, c) else mon_only m2 l' (S idx)
   end.
 
@@ -183,7 +192,7 @@ Fixpoint exec (afl : bool) (s : st) (m : mstate) (acc : list (tid * res)) (l : l
   | h :: l' =>
       let m1 := fold_left apply_ext (h_ext h) m in
       let m2 := fold_left apply_res (h_res h) m1 in
-      let c := monitor m2 h in
+      let c := if after_close m h then 9 else monitor m2 h in
       if negb (Nat.eqb c 0) then VMonFail idx c else
       let acc' := h_res h ++ acc in
       let goal := fun s' => quiescent afl (h_hooked h) s'
